@@ -62,6 +62,8 @@ def _run(ctx, sysobj, shape, what, tags):
         return snap.frame_by_name(sysh.run_solve(ctx, sysobj, shape, tags=tags, stub_warns=W))
     if what == "solve_energy":
         return snap.frame_by_name(sysh.run_solve(ctx, sysobj, shape, energy=True, stub_warns=W))
+    if what.startswith("solve_phase:"):
+        return snap.frame_by_name(sysh.run_solve(ctx, sysobj, shape, phase=what.split(":")[1], stub_warns=W))
     if what == "solve_phase":
         ph = shape.get("phases")
         return snap.frame_by_name(sysh.run_solve(ctx, sysobj, shape, phase=ph[-1], stub_warns=W)) if ph else None
@@ -149,6 +151,32 @@ def e_readonly(ctx, shape, seq):
     ctx.check("tags-argument-unchanged", cond(tags == {"run": 7}))
     if durations:
         ctx.check("phases-dict-unchanged", cond(list(sysobj.get_sys_phases()) == list(durations)))
+
+
+def e_hidden_state(ctx, shape, seq, final=None):
+    """'Interleaving any of these calls changes no later result' against an ABSOLUTE oracle: after the sequence the final solve() must
+    still obey every component's documented law and the neighbour equations (C01's system oracle, which is independent of the repo code).
+    A before/after comparison cannot see state that lives outside the System object (class- or module-level caches keyed too coarsely):
+    both solves would be poisoned alike.  The proxies are hashable (one bucket) for the duration, so a cache keyed on looked-up values
+    compares its keys through the solver."""
+    from .. import symx
+    from .sys_common import oracle_c01
+
+    sysobj, info, durations = sysh.build_system(ctx, shape)
+    old = symx.SymReal.__hash__
+    try:
+        try:
+            for w in seq:
+                _run(ctx, sysobj, shape, w, {"run": 7})
+            kw = {"phase": final} if final else {}
+            df = sysh.run_solve(ctx, sysobj, shape, stub_warns="bounded", **kw)
+        except sysh.Unstable:
+            ctx.note("unstable")
+            return
+    finally:
+        symx.SymReal.__hash__ = old
+    ctx.cover("ran")
+    oracle_c01(ctx, shape, info, sysh.table_rows(df), durations, {}, df, sysobj)
 
 
 META = {
